@@ -242,7 +242,7 @@ func Convert(value any, typ reflect.Type) (any, error) { //nolint: gocyclo
 		case []byte:
 			return string(value), nil
 		case fmt.Stringer:
-			return value.String(), nil
+			return callPrinter("String", value.String), nil
 		default:
 			return Sprint(value), nil
 		}
